@@ -168,6 +168,11 @@ def run_case(case, obs):
         bi = Battery(cap, cap * rng.uniform(0.3, 0.9), pmax)
         for j in range(24):
             pj, Vj, Tj = rng.choice([8, 16, 32, 64, 4]), rng.choice([104, 208, 416]), rng.choice([2.5, 5, 10, 20, 1.25])
+            if j % 7 == 3:
+                from vlib.monitors import poke
+                poke(b, bi)
+                poke(bi, _mk(cap, 1.0, pmax, ts))
+                obs.ev("objects_printed_compared_hashed_between_calls")
             c_before = battery_state(b)[0]
             r = b.charge(pj, Vj, Tj)
             c_after = battery_state(b)[0]
